@@ -1,9 +1,9 @@
 /-
 Decidable side conditions used by the C18 theorems: well-formedness of a value
 with respect to the classes that exist (`wf`), the property's own domain
-(`domOK`), the two regions in which the code serializer still does not
-round-trip (`setFree`: a non-empty set; `importsOK`: import name clashes), and
-their conjunction as used by the induction (`valOK`).  All are `Bool` functions, so concrete inputs are checked by
+(`domOK`, and `valOK`, the same predicate in the shape the induction uses),
+and the one region in which the code serializer still does not round-trip
+(`importsOK`: import name clashes).  All are `Bool` functions, so concrete inputs are checked by
 `decide`.
 -/
 import XsdataModel.Code.Pycode
@@ -64,14 +64,14 @@ def notNan : Option NumV → Bool
   | _ => true
 
 mutual
-/-- the region in which `PycodeSerializer` as it stands round-trips
-(= `domOK` and `setFree`, see `valOK_of_dom_setFree`): no NaN, no non-empty
-set, opaque values print their class by its qualified name, dict keys are
-hashable, `init=False` attributes are at their default. -/
+/-- the region in which `PycodeSerializer` as it stands round-trips (implied
+by `domOK`, see `valOK_of_dom`): no NaN, opaque values print their class by its
+qualified name, dict keys and set elements are hashable, `init=False`
+attributes are at their default. -/
 def valOK (W : World) : Val → Bool
   | .float n _ => notNan (some n)
   | .opaque c callee _ n => notNan n && callee == c.path
-  | .set _ xs => xs.isEmpty
+  | .set _ xs => hashableL xs && valOKL W xs
   | .tuple xs => valOKL W xs
   | .list xs => valOKL W xs
   | .dict kvs => valOKKV W kvs
@@ -87,14 +87,14 @@ end
 
 mutual
 /-- the property's own domain: values for which "equal to the original" can
-hold at all and that a constructor call can produce — no NaN, dict keys
-hashable, `init=False` attributes at their default, opaque values print their
+hold at all and that a constructor call can produce — no NaN, dict keys and
+set elements hashable, `init=False` attributes at their default, opaque values print their
 class by its qualified name -/
 def domOK (W : World) : Val → Bool
   | .float n _ => notNan (some n)
   | .opaque c callee _ n => notNan n && callee == c.path
   | .tuple xs => domOKL W xs
-  | .set _ xs => domOKL W xs
+  | .set _ xs => hashableL xs && domOKL W xs
   | .list xs => domOKL W xs
   | .dict kvs => domOKKV W kvs
   | .model c attrs => initFalseOK (W.fieldsOf c) attrs && domOKL W attrs
@@ -105,24 +105,6 @@ def domOKL (W : World) : List Val → Bool
 def domOKKV (W : World) : List (Val × Val) → Bool
   | [] => true
   | (k, v) :: r => hashable k && domOK W k && domOK W v && domOKKV W r
-end
-
-mutual
-/-- the value contains no non-empty `set` / `frozenset` (they are still
-rendered as list displays) -/
-def setFree : Val → Bool
-  | .set _ xs => xs.isEmpty
-  | .tuple xs => setFreeL xs
-  | .list xs => setFreeL xs
-  | .dict kvs => setFreeKV kvs
-  | .model _ attrs => setFreeL attrs
-  | _ => true
-def setFreeL : List Val → Bool
-  | [] => true
-  | x :: xs => setFree x && setFreeL xs
-def setFreeKV : List (Val × Val) → Bool
-  | [] => true
-  | (k, v) :: r => setFree k && setFree v && setFreeKV r
 end
 
 /-- every import that binds the first name of a reference comes from the
